@@ -301,7 +301,7 @@ def gen_c02(tier, seed):
         ids = sorted(rng.sample(range(0, 8), rng.randrange(1, 6)))
         lay = []
         for _ in ids:
-            st = rng.choice(["incomplete", "complete", "complete", "nohead", "incomplete"])
+            st = rng.choice(["incomplete", "complete", "complete", "nohead", "incomplete", "noheadtail"])
             sel = [j + 1 for j in range(len(universe)) if rng.random() < 0.6]
             if st == "incomplete":
                 sel = sel[:rng.randrange(0, len(sel) + 1)]
@@ -362,11 +362,22 @@ def gen_c14(tier, seed):
     m = 16 if tier == "quick" else 200
     for i in range(m):
         # resume: every crash point of an interrupted run, followed by a backup of the same source
-        t0 = random_tree(rng, nmax=5, pre_epoch=False, maxlen=9)
+        t0 = random_tree(rng, nmax=rng.choice([5, 8, 12]), pre_epoch=False, maxlen=9)
+        if i % 2 == 0:
+            # files of a directory sort before the contents of its sub-directories: root files named
+            # after the directories, so that plain string order and path order disagree inside a hunk
+            have = {path_str(n["p"]) for n in t0}
+            for nm in rng.sample(["m1", "z1", "zz", "k"], 2):
+                if "/" + nm not in have:
+                    t0.append(node("/" + nm, "File", cvlib.rand_content(rng, 5), mt=(1600000600, 0)))
+            if not any(n["k"] == "Dir" and n["p"] for n in t0):
+                t0 += [node("/d", "Dir"), node("/d/a", "File", b"\x01\x02"), node("/d/b", "File", b"\x03")]
         t1 = mut(rng, t0, maxlen=9)
         o = rng.choice(OPTS_POOL[:5] + [{"H": 1000, "M": 1000, "S": 1000}, {"H": 3, "M": 8, "S": 4}])
         pre = rng.random() < 0.75
-        steps = ([{"op": "tree", "tree": t0}, bk(o)] if pre else [])
+        # (the older version is often indexed with another hunk size, so that the resume point falls
+        # inside one of its hunks)
+        steps = ([{"op": "tree", "tree": t0}, bk(dict(o, H=rng.choice([o["H"], 2, 3, 4])))] if pre else [])
         if pre and i % 2:
             # two earlier versions, the later one adding small files: the versions share combined blocks only partly
             t1 = [dict(n) for n in t0] + [node("/n%d" % j, "File", bytes([5 + j]) * (1 + j), mt=(1600000100 + j, 0)) for j in range(rng.randrange(1, 3))
@@ -376,6 +387,25 @@ def gen_c14(tier, seed):
                  {"op": "sweep", "base": bk(o), "mode": "crash_both", "sample": 0 if tier != "quick" else 14, "seed": i,
                   "then": [bk(o), {"op": "restore", "band": -1}]}]
         scens.append({"id": sid("C14", "resume", i), "props": ["C14"], "mode": "clean", "tags": ["resume"], "steps": steps})
+    # directed: the resume point of the interrupted run is the last file of a directory whose
+    # sub-directories' contents follow in the older version's hunk (path order: a directory's own
+    # entries first, then the contents of its sub-directories; plain string order differs); every
+    # kill point, the older version indexed with a different hunk size
+    for i in range(8 if tier == "quick" else 80):
+        t0 = [node("/", "Dir")]
+        for d in rng.sample(["d", "e", "a.b", "b"], rng.randrange(1, 3)):
+            t0.append(node("/" + d, "Dir"))
+            for f in rng.sample(["a", "b", "c", "e"], rng.randrange(2, 4)):
+                t0.append(node(f"/{d}/{f}", "File", cvlib.rand_content(rng, 6) or b"\x05", mt=(1600000700, 0)))
+        for f in rng.sample(["m1", "m2", "z1", "zz", "k", "y"], rng.randrange(2, 5)):
+            t0.append(node("/" + f, "File", cvlib.rand_content(rng, 6) or b"\x06", mt=(1600000701, 0)))
+        H = rng.choice([2, 3, 4])
+        o = {"H": H, "M": rng.choice([4, 1000]), "S": rng.choice([3, 1000])}
+        o0 = dict(o, H=rng.choice([x for x in [2, 3, 4, 5] if x != H]))
+        t1 = [dict(n) for n in t0] + [node("/" + rng.choice(["c0", "k0", "a0"]), "File", b"\x07\x08", mt=(1600000702, 0))]
+        steps = [{"op": "tree", "tree": t0}, bk(o0), {"op": "tree", "tree": t1},
+                 {"op": "sweep", "base": bk(o), "mode": "crash", "sample": 0, "seed": i, "then": [bk(o), {"op": "restore", "band": -1}]}]
+        scens.append({"id": sid("C14", "resord", i), "props": ["C14"], "mode": "clean", "tags": ["resume", "path-order"], "steps": steps})
     return scens
 
 
@@ -631,6 +661,9 @@ def gen_c07(tier, seed):
     mcs = []
     r = cvlib.run_tlc_model("MC_Interlock.tla", "Interlock_race_repo.cfg", timeout=600)
     mcs.append(("MC_Interlock.tla", "Interlock_race_repo.cfg", r))
+    # two gcs and a backup: the lock of a working gc is never removed by another
+    r = cvlib.run_tlc_model("MC_Interlock.tla", "Interlock_gcrace_repo.cfg", timeout=900)
+    mcs.append(("MC_Interlock.tla", "Interlock_gcrace_repo.cfg", r))
     scens = []
     # single-writer clauses: histories with interrupted and resumed backups, deletes, gcs
     n = 100 if tier == "quick" else 1500
@@ -662,6 +695,17 @@ def gen_c07(tier, seed):
                       "preemptions": 2, "sample": 50 if tier == "quick" else 1000, "seed": seed * 100 + i,
                       "then": [{"op": "restore_all"}]})
         scens.append({"id": sid("C07", "race", i), "props": ["C07"], "mode": "conc", "tags": ["backup-vs-backup"], "steps": steps})
+    # two deletes / gcs started at the same moment: each removes only the requested versions,
+    # unreferenced blocks and ITS OWN lock
+    for i in range(8 if tier == "quick" else 80):
+        steps, o, nb = conc_archive(rng)
+        steps = steps[:-1]
+        d1 = rng.choice([[0], [], [nb - 1]])
+        d2 = rng.choice([[], [0], list(range(nb))])
+        steps.append({"op": "conc_sweep", "actors": [{"op": "delete", "bands": d1, "actor": "gc1"}, {"op": "delete", "bands": d2, "actor": "gc2"}],
+                      "preemptions": 2, "sample": 40 if tier == "quick" else 600, "seed": seed * 100 + i,
+                      "then": [{"op": "restore_all"}, bk(o), {"op": "restore", "band": -1}]})
+        scens.append({"id": sid("C07", "gcrace", i), "props": ["C07"], "mode": "conc", "tags": ["gc-vs-gc"], "steps": steps})
     return scens, mcs
 
 
@@ -681,9 +725,20 @@ def damage_archive(rng):
     for _ in range(rng.randrange(0, 3)):
         t = mut(rng, t, maxlen=7)
         steps += [{"op": "tree", "tree": t}, bk(o)]
-    if rng.random() < 0.4:
+    r = rng.random()
+    if r < 0.3:
         t = mut(rng, t, maxlen=7, nmut=3)
         steps += [{"op": "tree", "tree": t}, bk(o, crash_at=rng.randrange(16, 40))]
+    elif r < 0.6:
+        # an interrupted newest version that got far: the files sorting first were rewritten since the
+        # older version (whose blocks are now referenced by the older version alone, at paths the
+        # interrupted one has already covered), and the kill comes near the end
+        t = [dict(n) for n in t]
+        files = sorted((n for n in t if n["k"] == "File"), key=lambda n: (len(n["p"]), [bytes(c) for c in n["p"]]))
+        for f in files[:rng.randrange(1, 3)]:
+            f["c"] = list(bytes([rng.choice([9, 10, 11])]) * rng.randrange(1, 6))
+            f["mt"] = [f["mt"][0] + 777, 0]
+        steps += [{"op": "tree", "tree": t}, bk(o, crash_from_end=rng.randrange(1, 6))]
     return steps, o
 
 
@@ -1069,7 +1124,7 @@ def c08_scenario(sid_, lay, paths, ids, tags):
             continue
         b = ids[slot]
         hunks = [{"n": bs["off"] + j, "es": [c08_entry(paths[i - 1], b, bs["off"] + j) for i in h]} for j, h in enumerate(bs["hunks"])]
-        bands.append({"id": b, "head": bs["st"] != "nohead", "tail": bs["st"] == "complete", "hunks": hunks})
+        bands.append({"id": b, "head": bs["st"] not in ("nohead", "noheadtail"), "tail": bs["st"] in ("complete", "noheadtail"), "hunks": hunks})
     steps = [{"op": "layout", "bands": bands, "blocks": []}]
     for bd in bands:
         if not bd["head"]:
@@ -1132,7 +1187,7 @@ def gen_c08(tier, seed):
         ids = sorted(rng.sample(range(0, 9), rng.randrange(2, 7)))
         lay = []
         for _ in ids:
-            st = rng.choice(["incomplete", "incomplete", "complete", "nohead", "incomplete"])
+            st = rng.choice(["incomplete", "incomplete", "complete", "nohead", "incomplete", "noheadtail"])
             sel = [j + 1 for j in range(len(universe)) if rng.random() < 0.45]
             if st == "incomplete" and rng.random() < 0.7:
                 sel = sel[:rng.randrange(0, len(sel) + 1)]
@@ -1142,6 +1197,8 @@ def gen_c08(tier, seed):
                 hunks.append(sel[:k])
                 sel = sel[k:]
             lay.append({"st": st, "hunks": hunks if st != "nohead" else [], "off": rng.choice([0, 0, 0, 1])})
+            if st == "noheadtail":
+                lay[-1]["hunks"] = hunks[:rng.randrange(0, 2)]
         s = c08_scenario(sid("C08", "rnd", i), lay, universe, ids, ["random-arrangement"])
         # richer filters for the random ones
         for bd in s["steps"][0]["bands"]:
@@ -1389,6 +1446,7 @@ def replay(prop, path, tier, seed):
 SPEC_MUTANTS = [
     ("MC_Interlock.tla", "Interlock_mutant_norecheck.cfg", "NoLoss"),
     ("MC_Interlock.tla", "Interlock_mutant_nocreatenew.cfg", "NoMixing"),
+    ("MC_Interlock.tla", "Interlock_mutant_loserremoves.cfg", "HoldsImpliesLock"),
     ("MC_Conserve.tla", "MC_Conserve_mutant_combiner.cfg", "Inv_"),
     ("MC_Conserve.tla", "MC_Conserve_mutant_gcskip.cfg", "Inv_"),
     ("MC_Conserve.tla", "MC_Conserve_mutant_blocksfirst.cfg", "Inv_"),
@@ -1399,7 +1457,7 @@ SPEC_MUTANTS = [
     ("Restore.tla", "Restore_mutant_timesfollow.cfg", "Inv_OutsideUntouched"),
 ]
 SPEC_GOOD = [
-    ("MC_Interlock.tla", "Interlock_repo.cfg"), ("MC_Interlock.tla", "Interlock_race_repo.cfg"),
+    ("MC_Interlock.tla", "Interlock_repo.cfg"), ("MC_Interlock.tla", "Interlock_race_repo.cfg"), ("MC_Interlock.tla", "Interlock_gcrace_repo.cfg"),
     ("MC_Conserve.tla", "MC_Conserve_c01.cfg"), ("MC_Conserve.tla", "MC_Conserve_fault.cfg"),
     ("Restore.tla", "Restore_repo.cfg"), ("MC_Exclude.tla", "MC_Exclude.cfg"), ("MC_Diff.tla", "MC_Diff.cfg"),
 ]
